@@ -562,3 +562,24 @@ Section Render.
     | _ => None
     end.
 End Render.
+
+(* ------------------------------------------------------------------ repeated members *)
+
+(* ethereum/eip712/duplicate_keys.go rejectDuplicateKeys (called by unmarshalBytesToJSONObject before anything is built):
+   a document in which some object repeats a member name, at any depth, is refused.  gjson reads the first occurrence
+   of a repeated member and the Amino codec the last, so no typed data could describe such a document. *)
+Fixpoint dup_free_f (f : nat) (j : json) : bool :=
+  match f with
+  | O => false
+  | S k =>
+    match j with
+    | JArr l => forallb (dup_free_f k) l
+    | JObj l => forallb (fun e => dup_free_f k (snd e)) l && nodupb (map fst l)
+    | _ => true
+    end
+  end.
+Definition dup_free (j : json) : bool := dup_free_f (jsize j) j.
+
+(* the rendering as the code does it: refusal of repeated members first *)
+Definition render_checked (H : bytes -> bytes) (j : json) : option bytes :=
+  if dup_free j then render H j else None.
